@@ -221,6 +221,19 @@ impl Node {
         Ok((n, format!("{start_res}{d}")))
     }
 
+    /// a client session with a given factory (what `Client::create_new_session` does after the dial)
+    pub async fn client_with(factory: Arc<PaddingFactory>) -> (Node, String) {
+        let wire = Arc::new(Mutex::new(WireState::default()));
+        let feed = Arc::new(Mutex::new(FeedState::default()));
+        let session = Arc::new(Session::new_client(ScriptReader(feed.clone()), RecWriter(wire.clone()), factory, None));
+        let r = tokio::time::timeout(WATCHDOG, session.clone().start_client()).await;
+        let start_res = match r { Ok(r) => res_str(&r), Err(_) => "blocked".into() };
+        let mut n = Node { is_client: true, session, wire, feed, handles: vec![], cb_rx: None, delivered: vec![], seen_writes: 0, dec_buf: BytesMut::new(), tasks: vec![], coalesce: false };
+        settle().await;
+        let d = n.delta().await;
+        (n, format!("{start_res}{d}"))
+    }
+
     /// a server session on an existing scripted transport (the reader may already have been
     /// partly consumed, as after `authenticate_client` in `handle_connection`)
     pub async fn server_on(reader: ScriptReader, feed: Arc<Mutex<FeedState>>, scheme: &[u8]) -> Node {
